@@ -3,6 +3,9 @@
 package node
 
 import (
+	"encoding/json"
+
+	"github.com/youzan/ZanRedisDB/common"
 	"github.com/youzan/ZanRedisDB/pkg/wait"
 	"github.com/youzan/ZanRedisDB/raft/raftpb"
 )
@@ -36,4 +39,44 @@ func VerifStore(sm StateMachine) *KVStore {
 		return k.store
 	}
 	return nil
+}
+
+// ---- log syncer learner (the SENDER side of cross-cluster replay)
+
+// VerifNewLogSyncer builds the real learner state machine that forwards its raft log to a remote cluster.
+func VerifNewLogSyncer(remote string, fullNS string, ci interface {
+	GetClusterName() string
+}) (StateMachine, error) {
+	mc := MachineConfig{RemoteSyncCluster: remote, LearnerRole: "role_log_syncer"}
+	sm, err := NewLogSyncerSM(&KVOptions{}, mc, 1, fullNS, verifCI{ci.GetClusterName()})
+	if err != nil {
+		return nil, err
+	}
+	sm.w = wait.New()
+	return sm, nil
+}
+
+type verifCI struct{ name string }
+
+func (c verifCI) GetClusterName() string { return c.name }
+func (c verifCI) GetSnapshotSyncInfo(fullNS string) ([]common.SnapshotSyncInfo, error) {
+	return nil, nil
+}
+func (c verifCI) UpdateMeForNamespaceLeader(fullNS string) (bool, error) { return false, nil }
+
+// VerifLogSyncerSynced: the position the learner claims to have synced to the remote cluster.
+func VerifLogSyncerSynced(sm StateMachine) (uint64, uint64) {
+	t, i, _ := sm.(*logSyncerSM).getSyncedState()
+	return t, i
+}
+
+// VerifApplyRemoteSnapEntry: the raft entry a syncer proposes to make the receiver restore the transferred
+// remote snapshot (term, index) of a source cluster.
+func VerifApplyRemoteSnapEntry(cluster string, term, index uint64, raftIndex uint64) raftpb.Entry {
+	p := &customProposeData{ProposeOp: ProposeOp_ApplyRemoteSnap, NeedBackup: true, RemoteTerm: term, RemoteIndex: index}
+	d, _ := json.Marshal(p)
+	rl := BatchInternalRaftRequest{ReqNum: 1, Type: FromClusterSyncer, OrigCluster: cluster, OrigTerm: term, OrigIndex: index, Timestamp: 1,
+		Reqs: []InternalRaftRequest{{Header: RequestHeader{ID: 0, DataType: int32(CustomReq)}, Data: d}}}
+	data, _ := rl.Marshal()
+	return raftpb.Entry{Term: 1, Index: raftIndex, Type: raftpb.EntryNormal, Data: data}
 }
